@@ -6,8 +6,9 @@
    fill the output with the last listed value, then overwrite in REVERSE precedence order; the
    common value, which has no row-id arrays, is handled by the per-row counter `common_count`
    (unsigned, wrapping) of the cells that have not been accounted for by lower-precedence values.
+   A value listed more than once counts at its first position (`ordered`, repair F23).
    The loop invariant is [Inv] below.  Hypotheses ([collapse_ok]): a 2-D index; a non-empty
-   precedence list WITHOUT REPEATED VALUES whose range fits a NumPy integer dtype. *)
+   precedence list (repeats allowed) whose range fits a NumPy integer dtype. *)
 From Coq Require Import ZArith List Bool Lia.
 From Catii Require Import Base.Sorted IIndex.Model IIndex.ModelFacts IIndex.Res IIndex.OpsA IIndex.OpsB
   IIndex.OpsBFacts IIndex.OpsBFromArray1 IIndex.Count IIndex.OpsBCollapseFacts
@@ -26,7 +27,7 @@ Definition spec_collapse (prec vals : list Z) : Z :=
 
 Definition int_range (mn mx : Z) : Prop := - 2 ^ 63 <= mn /\ mx < 2 ^ 64 /\ (mn < 0 -> mx < 2 ^ 63).
 Definition collapse_ok (idx : iindex) (prec : list Z) : Prop :=
-  (exists ncols, hshape idx = [ncols] /\ ncols < 2 ^ 64) /\ NoDup prec /\
+  (exists ncols, hshape idx = [ncols] /\ ncols < 2 ^ 64) /\
   match prec with [] => False | p0 :: _ => int_range (zmin_list p0 prec) (zmax_list p0 prec) end.
 
 Lemma spec_cons_present q l vals : In q vals -> spec_collapse (q :: l) vals = q.
@@ -83,13 +84,48 @@ Lemma match_hd {B} (l : list Z) (a : B) (F : Z -> B) :
   l <> [] -> match l with [] => a | x :: _ => F x end = F (hd 0 l).
 Proof. destruct l; [congruence|reflexivity]. Qed.
 
+(* ---------------------------------------------------------------- first occurrences *)
+Lemma in_dedup_keep l : forall seen y, In y (dedup_keep seen l) <-> In y l /\ ~ In y seen.
+Proof.
+  induction l as [|x l IH]; intros seen y; cbn [dedup_keep In]; [tauto|].
+  destruct (memZ x seen) eqn:M.
+  - apply memZ_In in M. rewrite IH. split; [tauto|]. intros [[<-|H] N]; [contradiction|tauto].
+  - apply memZ_false in M. cbn [In]. rewrite IH. cbn [In]. split.
+    + intros [<-|[H N]]; [tauto|]. split; [tauto|]. intros C. apply N. right. exact C.
+    + intros [[<-|H] N]; [left; reflexivity|]. destruct (Z.eq_dec x y) as [->|Nxy]; [left; reflexivity|].
+      right. split; [exact H|]. intros [C|C]; contradiction.
+Qed.
+Lemma nodup_dedup_keep l : forall seen, NoDup (dedup_keep seen l).
+Proof.
+  induction l as [|x l IH]; intros seen; cbn [dedup_keep]; [constructor|].
+  destruct (memZ x seen); [apply IH|]. constructor; [|apply IH].
+  intros C. apply in_dedup_keep in C. destruct C as [_ C]. apply C. left. reflexivity.
+Qed.
+Lemma find_dedup_keep (p : Z -> bool) l : forall seen, (forall x, In x seen -> p x = false) ->
+  find p (dedup_keep seen l) = find p l.
+Proof.
+  induction l as [|x l IH]; intros seen H; cbn [dedup_keep find]; [reflexivity|].
+  destruct (memZ x seen) eqn:M.
+  - apply memZ_In in M. rewrite (H x M). apply IH. exact H.
+  - cbn [find]. destruct (p x) eqn:P; [reflexivity|]. apply IH. intros y [<-|Hy]; [exact P|apply H; exact Hy].
+Qed.
+Lemma last_in (l : list Z) d : l <> [] -> In (last l d) l.
+Proof.
+  induction l as [|x l IH]; intros H; [congruence|]. destruct l as [|y l]; [left; reflexivity|].
+  right. apply IH. discriminate.
+Qed.
+Lemma last_app_cons (a : list Z) x b d : last (a ++ x :: b) d = last (x :: b) d.
+Proof.
+  induction a as [|y a IH]; [reflexivity|]. cbn [app]. rewrite <- IH. cbn [last].
+  destruct (a ++ x :: b) eqn:E; [destruct a; discriminate|reflexivity].
+Qed.
+
 (* ---------------------------------------------------------------- the loop *)
 Section Loop.
   Variables (idx : iindex) (ncols : Z) (prec : list Z) (f : Z -> Z).
   Hypothesis W : WF idx.
   Hypothesis HS : hshape idx = [ncols].
   Hypothesis Hnc : ncols < 2 ^ 64.
-  Hypothesis ND : NoDup prec.
   Hypothesis NE : prec <> [].
   Hypothesis HR : int_range (zmin_list (hd 0 prec) prec) (zmax_list (hd 0 prec) prec).
 
@@ -98,8 +134,11 @@ Section Loop.
   Let g := collapse_gather f nc es.
   Let dt := fit_dtype (zmax_list (hd 0 prec) prec) (zmin_list (hd 0 prec) prec).
   Let default := last prec 0.
+  Let ordered := dedup_keep [] prec.
   Let cdt := fit_dtype ncols 0.
   Let w := width cdt.
+  (* the counter is needed *)
+  Let cond := memZ nc ordered && (negb (default =? nc) || negb (last ordered 0 =? nc)).
 
   Lemma ncols_nonneg : 0 <= ncols.
   Proof. pose proof (wf_hshape idx W) as F. rewrite HS in F. inversion F; subst. assumption. Qed.
@@ -114,10 +153,12 @@ Section Loop.
     - apply zmax_list_ge. exact H.
   Qed.
 
-  Lemma prec_split : prec = removelast prec ++ [default].
-  Proof. apply app_removelast_last. exact NE. Qed.
   Lemma default_in : In default prec.
-  Proof. rewrite prec_split. apply in_or_app. right. left. reflexivity. Qed.
+  Proof. apply last_in. exact NE. Qed.
+  Lemma in_ordered x : In x ordered <-> In x prec.
+  Proof. unfold ordered. rewrite in_dedup_keep. cbn [In]. tauto. Qed.
+  Lemma nodup_ordered : NoDup ordered.
+  Proof. apply nodup_dedup_keep. Qed.
 
   Definition present (r q : Z) : Prop := In q (row_vals idx f r).
 
@@ -143,8 +184,8 @@ Section Loop.
   Lemma counter_ok : fits cdt ncols = true /\ 0 <= ncols < 2 ^ w.
   Proof. pose proof ncols_nonneg. destruct (fit_counter ncols) as [A B]; [lia|]. split; [exact A|]. unfold w, cdt. lia. Qed.
 
-  (* values already accounted for in the counter: the default, the processed ones, and the unlisted ones *)
-  Definition lowb (PD : list Z) (x : Z) : bool := (x =? default) || memZ x PD || negb (memZ x prec).
+  (* values already accounted for in the counter: the processed ones and the unlisted ones *)
+  Definition lowb (PD : list Z) (x : Z) : bool := memZ x PD || negb (memZ x ordered).
 
   (* the counter at row r = number of cells of the row holding the common value or a not yet processed listed value *)
   Lemma cc_cells PD r : 0 <= r < nrows idx ->
@@ -159,17 +200,31 @@ Section Loop.
     rewrite Z.mod_small; lia.
   Qed.
 
+  (* the specification restricted to the values processed so far *)
+  Definition specD (PD vals : list Z) : Z :=
+    match find (fun p => memZ p vals) PD with Some p => p | None => default end.
+  Lemma specD_present q PD vals : In q vals -> specD (q :: PD) vals = q.
+  Proof. intros H. unfold specD. cbn [find]. apply memZ_In in H. rewrite H. reflexivity. Qed.
+  Lemma specD_absent q PD vals : ~ In q vals -> specD (q :: PD) vals = specD PD vals.
+  Proof. intros H. unfold specD. cbn [find]. apply memZ_false in H. rewrite H. reflexivity. Qed.
+  Lemma specD_ordered vals : specD ordered vals = spec_collapse prec vals.
+  Proof.
+    unfold specD, spec_collapse, ordered. rewrite find_dedup_keep by (intros x []). reflexivity.
+  Qed.
+
   (* LOOP INVARIANT.  PD = the values processed so far, highest precedence first; R = those still to come
-     (in processing order), so that prec = rev R ++ PD ++ [default].
+     (in processing order), so that ordered = rev R ++ PD.
      (a) a row none of whose values is still to come already holds its final value;
-     (b) the flag says whether the common value has been passed;
-     (c) until then the counter is exact (modulo 2^w). *)
+     (b) the flag says whether the counter is (no longer) needed;
+     (c) until then the counter is exact (modulo 2^w);
+     (d) before the first step the output is the fill value. *)
   Definition Inv (PD R : list Z) (s : cstate) : Prop :=
     (forall r, 0 <= r < nrows idx -> (forall q, In q R -> ~ present r q) ->
-       c_out s r = spec_collapse (PD ++ [default]) (row_vals idx f r)) /\
-    c_chbw s = memZ nc (default :: PD) /\
+       c_out s r = specD PD (row_vals idx f r)) /\
+    c_chbw s = negb cond || memZ nc PD /\
     (c_chbw s = false -> exists cc, c_cc s = Some cc /\
-       forall r, cc r = (ncols - ecount f nc (lowb PD) r es) mod 2 ^ w).
+       forall r, cc r = (ncols - ecount f nc (lowb PD) r es) mod 2 ^ w) /\
+    (PD = [] -> forall r, c_out s r = default).
 
   Definition inner (q : Z) (st : res cstate) (rows : list Z) : res cstate :=
     match st with
@@ -187,12 +242,13 @@ Section Loop.
 
   Lemma collapse_step_unfold s q : collapse_step dt w nc g (Ok s) q =
     if q =? nc then
-      match c_cc s with
-      | None => Err EOther
-      | Some cc => if fits dt q
-                   then Ok {| c_out := fun r => if cc r =? 0 then c_out s r else q; c_cc := c_cc s; c_chbw := true |}
-                   else Err EOverflow
-      end
+      if c_chbw s then Ok s
+      else match c_cc s with
+           | None => Err EOther
+           | Some cc => if fits dt q
+                        then Ok {| c_out := fun r => if cc r =? 0 then c_out s r else q; c_cc := c_cc s; c_chbw := true |}
+                        else Err EOverflow
+           end
     else fold_left (inner q) (lists_of g q) (Ok s).
   Proof. reflexivity. Qed.
 
@@ -223,78 +279,92 @@ Section Loop.
           -- rewrite (H' r n K); [f_equal; lia|]. rewrite M. exact H.
   Qed.
 
-  Lemma step_ok q R' PD s : prec = rev R' ++ q :: PD ++ [default] -> Inv PD (q :: R') s ->
+  Lemma step_ok q R' PD s : ordered = rev R' ++ q :: PD -> Inv PD (q :: R') s ->
     exists s1, collapse_step dt w nc g (Ok s) q = Ok s1 /\ Inv (q :: PD) R' s1.
   Proof.
-    intros Hp (Ia & Ib & Ic).
-    assert (Hq : In q prec) by (rewrite Hp; apply in_or_app; right; left; reflexivity).
-    assert (Hmem : forall x, In x prec -> In x R' \/ x = q \/ In x PD \/ x = default).
-    { intros x. rewrite Hp. rewrite in_app_iff, <- in_rev. cbn [In]. rewrite in_app_iff. cbn [In].
-      intros [H|[H|[H|[H|[]]]]]; auto. }
-    assert (Hnq : ~ In q R' /\ ~ In q PD /\ q <> default).
-    { pose proof ND as ND'. rewrite Hp in ND'. apply NoDup_remove_2 in ND'.
-      rewrite in_app_iff, <- in_rev, in_app_iff in ND'. cbn [In] in ND'. repeat split; intros C; apply ND'; auto. }
-    destruct Hnq as (Hq1 & Hq2 & Hq3).
-    assert (Hl : PD ++ [default] <> []) by (destruct PD; discriminate).
+    intros Hp (Ia & Ib & Ic & Id).
+    assert (Hqo : In q ordered) by (rewrite Hp; apply in_or_app; right; left; reflexivity).
+    assert (Hq : In q prec) by (apply in_ordered; exact Hqo).
+    assert (Hmem : forall x, In x ordered -> In x R' \/ x = q \/ In x PD).
+    { intros x. rewrite Hp. rewrite in_app_iff, <- in_rev. cbn [In]. intros [H|[H|H]]; auto. }
+    assert (Hnq : ~ In q R' /\ ~ In q PD).
+    { pose proof nodup_ordered as ND'. rewrite Hp in ND'. apply NoDup_remove_2 in ND'.
+      rewrite in_app_iff, <- in_rev in ND'. split; intros C; apply ND'; auto. }
+    destruct Hnq as (Hq1 & Hq2).
     rewrite collapse_step_unfold. destruct (Z.eqb_spec q nc) as [Eq|Nq].
-    - (* the common value: rows whose counter is not exhausted obtain it *)
-      assert (Hb : c_chbw s = false).
-      { rewrite Ib. apply memZ_false. intros [C|C]; [congruence|]. rewrite <- Eq in C. contradiction. }
-      destruct (Ic Hb) as [cc [Ecc Hcc]]. rewrite Ecc, (fits_prec q Hq). eexists. split; [reflexivity|].
-      split; [|split].
-      + cbn [c_out]. intros r Hr Hnp. change ((q :: PD) ++ [default]) with (q :: PD ++ [default]).
-        rewrite Hcc, (cc_cells PD r Hr).
-        destruct (in_dec Z.eq_dec q (row_vals idx f r)) as [P|NP].
-        * rewrite spec_cons_present by exact P.
-          apply present_iff in P. destruct P as [hc [Hin E]].
-          match goal with |- (if Z.of_nat (length ?l) =? 0 then _ else _) = _ =>
-            assert (H' : (0 < length l)%nat);
-            [|destruct (Z.eqb_spec (Z.of_nat (length l)) 0); [lia|reflexivity]] end.
-          apply (filter_ex_nonempty _ _ hc Hin). rewrite E, Eq, Z.eqb_refl. reflexivity.
-        * rewrite spec_cons_absent by assumption. rewrite <- Ia; [|exact Hr|].
-          2:{ intros q' [<-|Hq']; [exact NP|apply Hnp; exact Hq']. }
-          match goal with |- (if Z.of_nat (length ?l) =? 0 then _ else _) = _ =>
-            assert (H' : l = []); [|rewrite H'; reflexivity] end.
-          apply filter_all_false. intros hc Hin. apply negb_false_iff. apply andb_true_iff.
-          set (x := f (dense idx r hc)).
-          assert (Px : present r x) by (apply present_iff; exists hc; auto).
-          split.
-          -- apply negb_true_iff. apply Z.eqb_neq. intros C. apply NP. rewrite Eq, <- C. exact Px.
-          -- unfold lowb. destruct (memZ x prec) eqn:M; [|rewrite orb_true_r; reflexivity].
-             apply memZ_In, Hmem in M. destruct M as [M|[M|[M|M]]].
-             ++ exfalso. exact (Hnp x M Px).
-             ++ exfalso. apply NP. rewrite <- M. exact Px.
-             ++ apply memZ_In in M. rewrite M. destruct (x =? default); reflexivity.
-             ++ rewrite M, Z.eqb_refl. reflexivity.
-      + cbn [c_chbw]. symmetry. apply memZ_In. right. left. exact Eq.
-      + cbn [c_chbw]. discriminate.
+    - (* the common value *)
+      assert (Mq : memZ nc PD = false) by (apply memZ_false; rewrite <- Eq; exact Hq2).
+      assert (Mn : memZ nc (q :: PD) = true) by (apply memZ_In; left; exact Eq).
+      destruct (c_chbw s) eqn:Hb.
+      + (* the counter was never needed: the output was filled with the common value, which is processed first *)
+        rewrite Mq, orb_false_r in Ib. symmetry in Ib. apply negb_true_iff in Ib. pose proof Ib as Hc. unfold cond in Ib.
+        assert (Mo : memZ nc ordered = true) by (apply memZ_In; rewrite <- Eq; exact Hqo).
+        rewrite Mo in Ib. cbn [andb] in Ib. apply orb_false_iff in Ib. destruct Ib as [Hd Hl].
+        apply negb_false_iff, Z.eqb_eq in Hd. apply negb_false_iff, Z.eqb_eq in Hl.
+        assert (EPD : PD = []).
+        { destruct PD as [|p PD']; [reflexivity|]. exfalso. rewrite Hp, last_app_cons in Hl.
+          assert (H : In (last (p :: PD') 0) (p :: PD')) by (apply last_in; discriminate).
+          change (last (q :: p :: PD') 0) with (last (p :: PD') 0) in Hl. rewrite Hl, <- Eq in H. contradiction. }
+        subst PD. exists s. split; [reflexivity|]. split; [|split; [|split]].
+        * intros r Hr Hnp. rewrite (Id eq_refl r), Hd. unfold specD. cbn [find].
+          rewrite Eq. destruct (memZ nc (row_vals idx f r)); [reflexivity|symmetry; exact Hd].
+        * rewrite Hb, Mn, orb_true_r. reflexivity.
+        * rewrite Hb. discriminate.
+        * discriminate.
+      + (* rows whose counter is not exhausted obtain the common value *)
+        destruct (Ic eq_refl) as [cc [Ecc Hcc]]. rewrite Ecc, (fits_prec q Hq). eexists. split; [reflexivity|].
+        split; [|split; [|split]].
+        * cbn [c_out]. intros r Hr Hnp. rewrite Hcc, (cc_cells PD r Hr).
+          destruct (in_dec Z.eq_dec q (row_vals idx f r)) as [P|NP].
+          -- rewrite specD_present by exact P.
+             apply present_iff in P. destruct P as [hc [Hin E]].
+             match goal with |- (if Z.of_nat (length ?l) =? 0 then _ else _) = _ =>
+               assert (H' : (0 < length l)%nat);
+               [|destruct (Z.eqb_spec (Z.of_nat (length l)) 0); [lia|reflexivity]] end.
+             apply (filter_ex_nonempty _ _ hc Hin). rewrite E, Eq, Z.eqb_refl. reflexivity.
+          -- rewrite specD_absent by assumption. rewrite <- Ia; [|exact Hr|].
+             2:{ intros q' [<-|Hq']; [exact NP|apply Hnp; exact Hq']. }
+             match goal with |- (if Z.of_nat (length ?l) =? 0 then _ else _) = _ =>
+               assert (H' : l = []); [|rewrite H'; reflexivity] end.
+             apply filter_all_false. intros hc Hin. apply negb_false_iff. apply andb_true_iff.
+             set (x := f (dense idx r hc)).
+             assert (Px : present r x) by (apply present_iff; exists hc; auto).
+             split.
+             ++ apply negb_true_iff. apply Z.eqb_neq. intros C. apply NP. rewrite Eq, <- C. exact Px.
+             ++ unfold lowb. destruct (memZ x ordered) eqn:M; [|rewrite orb_true_r; reflexivity].
+                apply memZ_In, Hmem in M. destruct M as [M|[M|M]].
+                ** exfalso. exact (Hnp x M Px).
+                ** exfalso. apply NP. rewrite <- M. exact Px.
+                ** apply memZ_In in M. rewrite M. reflexivity.
+        * cbn [c_chbw]. rewrite Mn, orb_true_r. reflexivity.
+        * cbn [c_chbw]. discriminate.
+        * discriminate.
     - (* an uncommon value: its rows obtain it; until the common value is passed they are counted *)
       destruct (inner_fold q (fits_prec q Hq) (lists_of g q) s) as (s1 & E1 & O1 & B1 & C1).
       { intros Hb. destruct (Ic Hb) as [cc [Ecc _]]. congruence. }
-      exists s1. split; [exact E1|]. split; [|split].
-      + intros r Hr Hnp. change ((q :: PD) ++ [default]) with (q :: PD ++ [default]).
-        rewrite O1. destruct (in_dec Z.eq_dec q (row_vals idx f r)) as [P|NP].
-        * rewrite spec_cons_present by exact P. apply (present_lists r q Hr Nq) in P. rewrite P. reflexivity.
-        * rewrite spec_cons_absent by assumption.
+      exists s1. split; [exact E1|]. split; [|split; [|split]].
+      + intros r Hr Hnp. rewrite O1. destruct (in_dec Z.eq_dec q (row_vals idx f r)) as [P|NP].
+        * rewrite specD_present by exact P. apply (present_lists r q Hr Nq) in P. rewrite P. reflexivity.
+        * rewrite specD_absent by assumption.
           assert (X : existsb (memZ r) (lists_of g q) = false).
           { destruct (existsb (memZ r) (lists_of g q)) eqn:X; [|reflexivity].
             apply (present_lists r q Hr Nq) in X. contradiction. }
           rewrite X. apply Ia; [exact Hr|]. intros q' [<-|Hq']; [exact NP|apply Hnp; exact Hq'].
-      + rewrite B1, Ib. unfold memZ. cbn [existsb]. destruct (Z.eqb_spec nc q); [congruence|]. reflexivity.
+      + rewrite B1, Ib. f_equal. unfold memZ. cbn [existsb]. destruct (Z.eqb_spec nc q); [congruence|]. reflexivity.
       + intros Hb1. rewrite B1 in Hb1. destruct (Ic Hb1) as [cc [Ecc Hcc]].
         destruct (C1 Hb1 cc Ecc) as [cc' [Ecc' Hcc']].
         exists cc'. split; [exact Ecc'|]. intros r.
         rewrite (Hcc' r ncols (ecount f nc (lowb PD) r es) (Hcc r)).
         f_equal. f_equal. unfold g. rewrite lists_of_gather. rewrite ecount_or.
         * apply ecount_ext. intros x. unfold lowb, memZ. cbn [existsb]. rewrite (Z.eqb_sym q x).
-          destruct (x =? default), (x =? q), (existsb (Z.eqb x) PD), (negb (existsb (Z.eqb x) prec)); reflexivity.
+          destruct (x =? q), (existsb (Z.eqb x) PD), (negb (existsb (Z.eqb x) ordered)); reflexivity.
         * intros x. unfold lowb. destruct (Z.eqb_spec q x) as [<-|]; [|apply andb_false_r]. rewrite andb_true_r.
-          destruct (Z.eqb_spec q default); [contradiction|].
           assert (M1 : memZ q PD = false) by (apply memZ_false; exact Hq2).
-          assert (M2 : memZ q prec = true) by (apply memZ_In; exact Hq). rewrite M1, M2. reflexivity.
+          assert (M2 : memZ q ordered = true) by (apply memZ_In; exact Hqo). rewrite M1, M2. reflexivity.
+      + discriminate.
   Qed.
 
-  Lemma loop_ok : forall R PD s, prec = rev R ++ PD ++ [default] -> Inv PD R s ->
+  Lemma loop_ok : forall R PD s, ordered = rev R ++ PD -> Inv PD R s ->
     exists s', fold_left (collapse_step dt w nc g) R (Ok s) = Ok s' /\ Inv (rev R ++ PD) [] s'.
   Proof.
     induction R as [|q R' IH]; intros PD s Hp HI; cbn [fold_left].
@@ -311,43 +381,38 @@ Section Loop.
     forall r, 0 <= r < nrows idx -> h r = spec_collapse prec (row_vals idx f r).
   Proof.
     assert (Hd : fits dt default = true) by (apply fits_prec, default_in).
-    set (R0 := rev (removelast prec)).
-    assert (Hp : prec = rev R0 ++ [] ++ [default]).
-    { unfold R0. rewrite rev_involutive. cbn [app]. apply prec_split. }
-    assert (HI : exists s0, (if default =? nc then Ok {| c_out := fun _ => default; c_cc := None; c_chbw := true |}
-                   else if negb (fits cdt ncols) then Err EOverflow
+    set (R0 := rev ordered).
+    assert (Hp : ordered = rev R0 ++ []).
+    { unfold R0. rewrite rev_involutive, app_nil_r. reflexivity. }
+    assert (HI : exists s0, (if cond then
+                   if negb (fits cdt ncols) then Err EOverflow
                    else Ok {| c_out := fun _ => default;
-                              c_cc := Some (fold_left (fun cc kl => if memZ (fst kl) prec then cc else arr_dec_all w (snd kl) cc) g
-                                              (arr_dec_all w (lists_of g default) (fun _ => ncols)));
-                              c_chbw := false |}) = Ok s0 /\ Inv [] R0 s0).
-    { assert (Ha : forall vals, spec_collapse ([] ++ [default]) vals = default).
-      { intros vals. unfold spec_collapse. cbn [app find last]. destruct (memZ default vals); reflexivity. }
-      destruct (Z.eqb_spec default nc) as [E|N].
-      - eexists. split; [reflexivity|]. split; [|split].
-        + intros r _ _. rewrite Ha. reflexivity.
-        + cbn [c_chbw]. unfold memZ. cbn [existsb]. rewrite E, Z.eqb_refl. reflexivity.
-        + cbn [c_chbw]. discriminate.
-      - destruct counter_ok as [Fc Bc]. rewrite Fc. cbn [negb]. eexists. split; [reflexivity|]. split; [|split].
-        + intros r _ _. rewrite Ha. reflexivity.
-        + cbn [c_chbw]. unfold memZ. cbn [existsb]. destruct (Z.eqb_spec nc default); [congruence|reflexivity].
+                              c_cc := Some (fold_left (fun cc kl => if memZ (fst kl) ordered then cc else arr_dec_all w (snd kl) cc) g
+                                              (fun _ => ncols));
+                              c_chbw := false |}
+                   else Ok {| c_out := fun _ => default; c_cc := None; c_chbw := true |}) = Ok s0 /\ Inv [] R0 s0).
+    { destruct cond eqn:EC.
+      - destruct counter_ok as [Fc Bc]. rewrite Fc. cbn [negb]. eexists. split; [reflexivity|]. split; [|split; [|split]].
+        + intros r _ _. reflexivity.
+        + cbn [c_chbw]. rewrite EC. reflexivity.
         + intros _. eexists. split; [reflexivity|]. intros r.
-          rewrite (fold_dec_notin w r ncols prec g _ (cntr r (lists_of g default))).
-          2:{ rewrite (arr_dec_all_spec w r ncols (lists_of g default) (fun _ => ncols) 0).
-              - f_equal; lia.
-              - rewrite Z.sub_0_r, Z.mod_small; [reflexivity|exact Bc]. }
-          f_equal. f_equal. unfold g. rewrite lists_of_gather, gsum_gather. rewrite ecount_or.
-          * apply ecount_ext. intros x. unfold lowb, memZ. cbn [existsb]. rewrite (Z.eqb_sym default x).
-            destruct (x =? default); reflexivity.
-          * intros x. destruct (Z.eqb_spec default x) as [<-|]; [|reflexivity].
-            assert (M : memZ default prec = true) by (apply memZ_In, default_in). rewrite M. reflexivity. }
+          rewrite (fold_dec_notin w r ncols ordered g _ 0).
+          2:{ rewrite Z.sub_0_r, Z.mod_small; [reflexivity|exact Bc]. }
+          f_equal. f_equal. unfold g. rewrite gsum_gather. rewrite Z.add_0_l. apply ecount_ext. intros x. reflexivity.
+        + intros _ r. reflexivity.
+      - eexists. split; [reflexivity|]. split; [|split; [|split]].
+        + intros r _ _. reflexivity.
+        + cbn [c_chbw]. rewrite EC. reflexivity.
+        + cbn [c_chbw]. discriminate.
+        + intros _ r. reflexivity. }
     destruct HI as (s0 & E0 & I0).
     destruct (loop_ok R0 [] s0 Hp I0) as (s' & E' & (Ia & _)).
     exists (c_out s'). split.
     - unfold collapse_output. rewrite match_hd by exact NE.
-      fold dt. fold default. rewrite Hd. cbn [negb]. fold cdt. fold w. fold nc. fold es. fold g.
+      fold dt. fold default. rewrite Hd. cbn [negb]. fold ordered. fold cdt. fold w. fold nc. fold es. fold g. fold cond.
       rewrite E0. fold R0. rewrite E'. reflexivity.
     - intros r Hr. rewrite (Ia r Hr) by (intros q []). rewrite app_nil_r. unfold R0. rewrite rev_involutive.
-      rewrite <- prec_split. reflexivity.
+      apply specD_ordered.
   Qed.
 End Loop.
 
@@ -371,7 +436,7 @@ Theorem collapsed_spec idx prec m : WF idx -> collapse_ok idx prec ->
     (forall r, 0 <= r < nrows idx -> dense out r [] = spec_collapse prec (row_vals idx (map_fun m) r)) /\
     (forall v, dense_count out v <= dense_count out (common out)).
 Proof.
-  intros W [[ncols [HS Hn]] [ND HR]].
+  intros W [[ncols [HS Hn]] HR].
   assert (NE : prec <> []) by (destruct prec; [contradiction|discriminate]).
   assert (HR' : int_range (zmin_list (hd 0 prec) prec) (zmax_list (hd 0 prec) prec)).
   { destruct prec; [contradiction|exact HR]. }
@@ -380,7 +445,7 @@ Proof.
   - eexists. split; [reflexivity|]. split; [apply wf_b_spec; reflexivity|]. cbn [nrows hshape].
     split; [symmetry; exact Z0|]. split; [reflexivity|]. split; [intros r Hr; lia|].
     intros v. unfold dense_count, count_cells, cells. cbn [nrows hshape]. cbn. lia.
-  - destruct (collapse_output_spec idx ncols prec (map_fun m) W HS Hn ND NE HR') as [h [E Hh]].
+  - destruct (collapse_output_spec idx ncols prec (map_fun m) W HS Hn NE HR') as [h [E Hh]].
     rewrite E. cbn [res_bind].
     pose proof (wf_nrows idx W) as Hrows.
     assert (Hlen : Z.of_nat (length (map h (zrange (nrows idx)))) = nrows idx).
